@@ -13,6 +13,14 @@ Tie 1b (image level, exact for single-block tables): the image that very run of 
     Img.serialize_fstree, extracted in ExtractC11Img.v, metadata stored uncompressed) must predict the
     uncompressed inode table stream, the directory table stream, the id table and the root reference byte for
     byte (file inodes: location fields taken from the image, they belong to the data path).
+Tie 1c (xattr level, exact; session 3 round 12): trees whose regular files, directories and root carry real user.* xattrs
+    (`run_xattr_leg`: sets shared between objects, sets with common pairs, the same pairs created in another order, names of
+    multiply-linked files) are packed with -x / --keep-xattr.  The images of the real gensquashfs under readdir orders x
+    number assignments (incl. `sub`: equal inode numbers on two devices) must be identical; the h_scan image of each tie run
+    must carry, for every path, the xattr index and, as a section, the key/value table and the id table that the model
+    ImgScan.apply_xattrs (walk over the SORTED tree on C01's xattr writer model) + ImgXattr.xflush computes from the host's
+    lists (os.listxattr order = llistxattr order), and the inode table with those indices byte for byte (ExtractC11X.v,
+    driver_x.ml).  Skipped with a log line when the scratch file system refuses user.* xattrs.
 Tie 2 (component level, exact): props/C11/h_fstree.c drives fstree_add_generic / fstree_post_process with
     explicit entry sequences in arbitrary orders; the model (fs_add + post_process) must print the same dump.
 Search oracle: the property itself on the implementation — sha256 of the image the real gensquashfs writes
@@ -44,7 +52,9 @@ import os
 import random
 import shutil
 import stat
+import struct
 import subprocess
+import tempfile
 import time
 from concurrent.futures import ThreadPoolExecutor
 
@@ -97,7 +107,9 @@ def build_tools():
                                   stubs_c=os.path.join(HERE, "stubs.c"))
     drv_img = core.build_model_driver("C11img", "ExtractC11Img.v", os.path.join(HERE, "driver_img.ml"),
                                       stubs_c=os.path.join(HERE, "stubs.c"))
-    return dict(info=info, h_scan=h_scan, h_fstree=h_fstree, shim=shim, drv=drv, drv_img=drv_img,
+    drv_x = core.build_model_driver("C11x", "ExtractC11X.v", os.path.join(HERE, "driver_x.ml"),
+                                    stubs_c=os.path.join(HERE, "stubs.c"))
+    return dict(info=info, h_scan=h_scan, h_fstree=h_fstree, shim=shim, drv=drv, drv_img=drv_img, drv_x=drv_x,
                 gensquashfs=info["tools"]["gensquashfs"], rdsquashfs=info["tools"]["rdsquashfs"])
 
 
@@ -111,7 +123,7 @@ def private_tools(ctx):
             d = os.path.join(ctx.scratch, "bin%d" % attempt)
             os.makedirs(d, exist_ok=True)
             out = dict(info=tools["info"])
-            for k in ("h_scan", "h_fstree", "shim", "drv", "drv_img", "gensquashfs", "rdsquashfs"):
+            for k in ("h_scan", "h_fstree", "shim", "drv", "drv_img", "drv_x", "gensquashfs", "rdsquashfs"):
                 dst = os.path.join(d, k + (".so" if k == "shim" else ""))
                 shutil.copy2(tools[k], dst)
                 out[k] = dst
@@ -1236,8 +1248,9 @@ def strip_model(lines):
     return [l for l in lines if l and not l.startswith(("CASE ", "END", "A "))]
 
 
-def tie_scan_one(tools, case, mode, workdir):
-    """Returns dict(ok, kind, detail, nontrivial, ...)"""
+def tie_scan_one(tools, case, mode, workdir, ximage=None):
+    """Returns dict(ok, kind, detail, nontrivial, ...).  ximage: the XA lines of the xattr leg (tie 1c) - the image is then
+    compared by tie_ximage_one (tables with xattr indices + xattr section) instead of tie_image_one."""
     tag = mtag(mode)
     rmode, imode = split_mode(mode)
     dump = os.path.join(workdir, "dump.%s" % tag)
@@ -1287,9 +1300,11 @@ def tie_scan_one(tools, case, mode, workdir):
                    detail="line %d: impl=%r model=%r" % (diff, impl[diff] if diff < len(impl) else None,
                                                          mlines[diff] if diff < len(mlines) else None))
         return res
+    res["_img"] = img
     if complete and os.path.exists(img):
-        ti = tie_image_one(tools, text, img)
+        ti = tie_image_one(tools, text, img) if ximage is None else tie_ximage_one(tools, text, img, ximage)
         res["image"] = dict(exact=ti["exact"], bytes=ti.get("bytes", 0))
+        res["ximage"] = ti
         if not ti["ok"]:
             res.update(ok=False, kind="image", detail=ti["detail"])
     return res
@@ -1452,6 +1467,335 @@ def tie_image_one(tools, text, img_path):
     if int(got["Y"]) != im.super["root_ref"]:
         return dict(ok=False, exact=True, detail="root reference: model %s image %d" % (got["Y"], im.super["root_ref"]))
     return dict(ok=True, exact=True, detail="", bytes=len(ri) + len(rd))
+
+
+# --------------------------------------------------------------------------------------------
+# tie 1c + oracle: gensquashfs -x / --keep-xattr on trees whose files and directories carry real user.* xattrs
+# --------------------------------------------------------------------------------------------
+
+XSETS = [
+    [("user.a", b"1"), ("user.b", b"xy")],
+    [("user.b", b"xy"), ("user.c", b"")],
+    [("user.a", b"1")],
+    [("user.b", b"xy"), ("user.a", b"1")],                 # the pairs of the first set, created in the other order
+    [("user.long", bytes(range(256)) * 2), ("user.a", b"2")],
+    [("user.z", b"\x00\xff"), ("user.mime_type", b"text/plain"), ("user.c", b"")],
+]
+
+
+def xattr_supported(scratch):
+    d = tempfile.mkdtemp(prefix="xprobe.", dir=scratch)
+    try:
+        os.mkdir(os.path.join(d, "sub"))
+        for p in (os.path.join(d, "f"), os.path.join(d, "sub")):
+            if not os.path.isdir(p):
+                open(p, "w").close()
+            os.setxattr(p, b"user.probe", b"1")
+            if os.listxattr(p) != ["user.probe"]:
+                return False
+        return True
+    except OSError:
+        return False
+    finally:
+        shutil.rmtree(d, ignore_errors=True)
+
+
+def gen_xattr_assignment(rnd, spec):
+    """{relative path: index into XSETS} for regular files and directories ('' = the root): at least two different sets, one
+    set on at least two objects, some objects without any; the names of a multiply-linked file share the inode's list."""
+    objs = [e["p"] for e in spec if e["k"] in ("f", "d")] + [""]
+    rnd.shuffle(objs)
+    asg = {}
+    if len(objs) >= 3:
+        a, b = rnd.sample(range(len(XSETS)), 2)
+        asg[objs[0]], asg[objs[1]], asg[objs[2]] = a, b, a
+    for q in objs[3:]:
+        if rnd.random() < 0.45:
+            asg[q] = rnd.randrange(len(XSETS))
+    return asg
+
+
+def apply_xattr_assignment(root, asg):
+    for q, k in sorted(asg.items()):
+        p = os.path.join(root, q) if q else root
+        if not os.path.lexists(p) or os.path.islink(p):
+            continue
+        st = os.lstat(p)
+        mode = stat.S_IMODE(st.st_mode)
+        if not mode & 0o200:
+            os.chmod(p, mode | 0o200)
+        for key, val in XSETS[k]:
+            os.setxattr(p, key.encode(), val, follow_symlinks=False)
+        os.chmod(p, mode)
+        os.utime(p, ns=(st.st_atime_ns, st.st_mtime_ns), follow_symlinks=False)
+
+
+def host_xattr_lines(root):
+    """XA lines for the model: per path of the tree what llistxattr / lgetxattr report, in llistxattr order (a property of
+    the file on this file system, read here with the same system calls the packer uses)."""
+    out, n = [], 0
+    for rel, st in scan_walk(root):
+        p = os.path.join(os.fsencode(root), rel) if rel else os.fsencode(root)
+        try:
+            keys = os.listxattr(p, follow_symlinks=False)
+        except OSError:
+            keys = []
+        if not keys:
+            continue
+        kv = []
+        for k in keys:
+            v = os.getxattr(p, k, follow_symlinks=False)
+            kv += [hexs(os.fsencode(k)), hexs(v)]
+        out.append("XA %s %d %s" % (hexs(rel) if rel else "-", len(keys), " ".join(kv)))
+        n += 1
+    return out, n
+
+
+def _xsection_of_image(im):
+    """(kv payload, [(ref, count, size)], raw bytes of the whole section) of a real image, or None"""
+    st = im.super["xattr_table_start"]
+    if st == sqfsimg.NOTBL:
+        return None
+    kv_start, count, _ = struct.unpack_from("<QII", im.data, st)
+    nblk = (count * 16 + sqfsimg.META - 1) // sqfsimg.META
+    locs = struct.unpack_from("<%dQ" % nblk, im.data, st + 16)
+    kv = b"".join(_meta_blocks(sqfsimg.MetaStream(im, kv_start, min(locs) if locs else st)))
+    return kv, [tuple(x) for x in im.xattr_ids], bytes(im.data[kv_start:st + 16 + 8 * nblk]), kv_start
+
+
+def _xsection_of_model(xs):
+    """the same from the model's 'XS <hex> <off>' (flushed at file size 0, metadata stored uncompressed)"""
+    w = xs.split()
+    if w[1] == "none":
+        return None
+    b, off = bytes.fromhex(w[1]), int(w[2])
+    kv_start, count, _ = struct.unpack_from("<QII", b, off)
+    nblk = (count * 16 + 8191) // 8192
+    locs = struct.unpack_from("<%dQ" % nblk, b, off + 16)
+
+    def blocks(lo, hi):
+        out, i = [], lo
+        while i < hi:
+            h = b[i] | (b[i + 1] << 8)
+            out.append(b[i + 2:i + 2 + (h & 0x7FFF)])
+            i += 2 + (h & 0x7FFF)
+        return b"".join(out)
+    kv = blocks(kv_start, min(locs))
+    raw = blocks(min(locs), off)
+    return kv, [struct.unpack_from("<QII", raw, 16 * i) for i in range(count)]
+
+
+def image_xattr_view(img_path):
+    """what the property fixes about xattrs in a real image: xattr index per path, the raw section relative to its start"""
+    im = sqfsimg.Image(open(img_path, "rb").read())
+    nodes = im.walk()
+    idx = {(path.decode("latin-1") if isinstance(path, bytes) else str(path)): n.xattr_idx for path, n in nodes.items()}
+    sec = _xsection_of_image(im)
+    return idx, (None if sec is None else (sec[0], sec[1]))
+
+
+def tie_ximage_one(tools, text, img_path, xa_lines, how="sorted"):
+    im = sqfsimg.Image(open(img_path, "rb").read())
+    try:
+        iblk = _meta_blocks(im.inodes)
+        cands = [l for (_, locs, _) in getattr(im, "table_blocks", []) for l in locs]
+        if getattr(im, "xattr_kv_start", None) is not None:
+            cands.append(im.xattr_kv_start)
+        cands = [c for c in cands if c >= im.super["dir_table_start"]]
+        dend = min(cands) if cands else im.dirs.limit
+        dblk = _meta_blocks(sqfsimg.MetaStream(im, im.super["dir_table_start"], dend))
+        nodes = im.walk()
+        rsec = _xsection_of_image(im)
+    except sqfsimg.ParseError as e:
+        return dict(ok=False, exact=False, detail="real image does not parse: %s" % e)
+    fb = []
+    for path, n in nodes.items():
+        if n.type == sqfsimg.T_FILE:
+            ext = 1 if (n.sparse or n.blocks_start > 0xFFFFFFFF or n.size > 0xFFFFFFFF) else 0
+            bl = list(n.block_sizes or [])
+            fb.append("FB %s %d %d %d %d %d %d %d %s" % (hexs(path) if path else "-", ext, n.blocks_start, n.size, n.sparse or 0,
+                                                       n.frag_idx, n.frag_off, len(bl), " ".join(str(x) for x in bl)))
+    assert text.endswith("POST\nEND\n")
+    t2 = text[:-len("END\n")] + "".join(l.rstrip() + "\n" for l in fb + xa_lines) + "XIMG %s\nEND\n" % how
+    r = subprocess.run([tools["drv_x"]], input=t2.encode(), stdout=subprocess.PIPE, stderr=subprocess.PIPE)
+    if r.returncode != 0:
+        raise RuntimeError("xattr model driver failed: " + r.stderr.decode()[-500:])
+    got, xi = {}, {}
+    for l in r.stdout.decode().split("\n"):
+        if l.startswith("XI "):
+            w = l.split()
+            xi[w[1]] = int(w[2])
+        elif l.startswith("XS ") or l.startswith("TX"):
+            got[l[:2]] = l
+        elif l[:2] in ("T ", "D ", "Q ", "Y "):
+            got[l[0]] = l[2:].strip()
+        elif l in ("Q", "Q "):
+            got["Q"] = ""
+    if "TX" in got or not all(k in got for k in ("T", "D", "Q", "Y", "XS")):
+        return dict(ok=False, exact=True, detail="model produced no tables: %r" % (got.get("TX"),))
+    # per-path xattr index
+    ridx = {(hexs(path) if path else "-"): n.xattr_idx for path, n in nodes.items()}
+    bad = sorted(k for k in set(ridx) | set(xi) if ridx.get(k) != xi.get(k))
+    if bad:
+        k = bad[0]
+        return dict(ok=False, exact=True, detail="xattr index of %r: model %r image %r (%d paths differ)"
+                    % (bytes.fromhex(k) if k != "-" else b"/", xi.get(k), ridx.get(k), len(bad)))
+    # the section
+    msec = _xsection_of_model(got["XS"])
+    if (msec is None) != (rsec is None):
+        return dict(ok=False, exact=True, detail="xattr section: model %s, image %s" % ("none" if msec is None else "present",
+                                                                                      "none" if rsec is None else "present"))
+    nsec = 0
+    if msec is not None:
+        if msec[0] != rsec[0]:
+            return dict(ok=False, exact=True, detail="xattr key/value table differs: model %s image %s" % (msec[0].hex()[:160], rsec[0].hex()[:160]))
+        one = len(rsec[0]) <= 8192
+        if [x if one else x[1:] for x in msec[1]] != [x if one else x[1:] for x in rsec[1]]:
+            return dict(ok=False, exact=True, detail="xattr id table differs: model %r image %r" % (msec[1][:6], rsec[1][:6]))
+        nsec = len(rsec[0]) + 16 * len(rsec[1])
+    if len(iblk) != 1 or len(dblk) > 1:
+        return dict(ok=True, exact=False, detail="multi-block tables", bytes=nsec, sets=0 if rsec is None else len(rsec[1]))
+    mi, _ = _model_stream(got["T"])
+    md, _ = _model_stream(got["D"])
+    ri, rd = b"".join(iblk), b"".join(dblk)
+    if mi != ri:
+        k = next((i for i, (a, b) in enumerate(zip(mi, ri)) if a != b), min(len(mi), len(ri)))
+        return dict(ok=False, exact=True, detail="inode table (with xattr indices) differs at byte %d (model %d bytes, image %d bytes): model %s image %s"
+                    % (k, len(mi), len(ri), mi[max(0, k - 8):k + 8].hex(), ri[max(0, k - 8):k + 8].hex()))
+    if md != rd:
+        return dict(ok=False, exact=True, detail="directory table differs (model %d bytes, image %d bytes)" % (len(md), len(rd)))
+    if [int(x) for x in got["Q"].split()] != list(im.ids) or int(got["Y"]) != im.super["root_ref"]:
+        return dict(ok=False, exact=True, detail="id table / root reference differ")
+    return dict(ok=True, exact=True, detail="", bytes=len(ri) + len(rd) + nsec, sets=0 if rsec is None else len(rsec[1]))
+
+
+def xattr_case_of(rnd, i):
+    spec = hardlink_tree(rnd) if i % 2 else gen_tree(rnd, nmax=rnd.choice([8, 14]), link_rate=rnd.choice([0.0, 0.15]), special=False)
+    opts = ["-x"] + (["-k"] if rnd.random() < 0.5 else []) + (["-H"] if rnd.random() < 0.2 else [])
+    c = Case("x%d" % i, spec, "dir", opts, dict(uid=0, gid=0, mtime=0, mode=0o755))
+    c.xattrs = gen_xattr_assignment(rnd, spec)
+    return c
+
+
+def xattr_modes(rnd, i):
+    r = rnd.randint(1, 4)
+    oracle = ["none", "sorted@asc", "reverse@desc", "seed:%d@rand:%d" % (rnd.randrange(1, 10 ** 6), rnd.randrange(1000)),
+              "rot:%d" % r, "rrot:%d@hlmax:%d" % (r, i),
+              # one to three sub trees / files on another st_dev, inode numbers per device from the same base: objects on two
+              # devices share inode NUMBERS (no -o here: a host accident, the same image is demanded)
+              "sorted@sub:%d" % (i * 7 + 1)]
+    ties = ["reverse@desc", oracle[3]]
+    return oracle, ties
+
+
+def check_xattr_case(ctx, tools, case, oracle_modes, tie_modes):
+    """One tree with xattrs: images of the real gensquashfs -x under the readdir orders / number assignments must be identical
+    (sha256; on a difference the xattr index per path and the section are compared to say what differs); the h_scan image of
+    each tie run must carry the xattr indices and the section the model computes from the walk over the sorted tree."""
+    out = dict(case=case, error=None, groups=None, ties=[], nxa=0, diff=None)
+    try:
+        wd = prepare_case(case, ctx.scratch)
+        apply_xattr_assignment(case.root, case.xattrs)
+        xa_lines, out["nxa"] = host_xattr_lines(case.root)
+        out["xa_lines"] = xa_lines
+        res, groups, listed = order_oracle(tools, case, oracle_modes, wd, tag="x")
+        out["oracle"], out["groups"] = res, groups
+        if len(groups) > 1:
+            vals = list(groups.items())
+            ma, mb = vals[0][1][0], vals[1][1][0]
+            # prefer two runs that differ in the injected numbers only, then two that differ in the readdir order only
+            pairs = [(a, b) for i, (_, ga) in enumerate(vals) for (_, gb) in vals[i + 1:] for a in ga for b in gb]
+            same_order = [(a, b) for a, b in pairs if split_mode(a)[0] == split_mode(b)[0] and "none" not in (a, b)]
+            same_numbers = [(a, b) for a, b in pairs if split_mode(a)[1] == split_mode(b)[1]]
+            if same_order:
+                ma, mb = same_order[0]
+            elif same_numbers:
+                ma, mb = same_numbers[0]
+            out["pair"] = (ma, mb)
+            try:
+                ia = image_xattr_view(os.path.join(wd, "x.%s.sqfs" % mtag(ma))) if res[ma][1] else None
+                ib = image_xattr_view(os.path.join(wd, "x.%s.sqfs" % mtag(mb))) if res[mb][1] else None
+                if ia and ib:
+                    dp = sorted(k for k in set(ia[0]) | set(ib[0]) if ia[0].get(k) != ib[0].get(k))
+                    out["diff"] = ("xattr index differs for %d paths (%s: %r vs %r); " % (len(dp), dp[0], ia[0].get(dp[0]), ib[0].get(dp[0])) if dp
+                                   else "xattr indices equal; ") + ("xattr section differs" if ia[1] != ib[1] else "xattr section equal")
+            except Exception as e:  # noqa: diagnosis only
+                out["diff"] = "images not comparable: %s" % e
+        for m in tie_modes:
+            out["ties"].append(tie_scan_one(tools, case, m, wd, ximage=xa_lines))
+        shutil.rmtree(wd, ignore_errors=True)
+    except Exception as e:  # noqa: report, do not hide
+        import traceback
+        out["error"] = "%s\n%s" % (e, traceback.format_exc()[-1500:])
+    return out
+
+
+def run_xattr_leg(ctx, tools, cases=None, modes=None):
+    stats = dict(cases=0, skipped=None, images=0, order_bad=0, tie_runs=0, tie_bad=0, tie_exact=0, bytes=0, with_section=0,
+                 objects_with_xattrs=0, sets=0)
+    if not xattr_supported(ctx.scratch):
+        stats["skipped"] = "the file system of %s refuses user.* xattrs" % ctx.scratch
+        return stats
+    rnd = random.Random(ctx.seed * 9176 + 11)
+    if cases is None:
+        cases = [xattr_case_of(rnd, i) for i in range(24 if ctx.tier == "quick" else 300)]
+    jobs = []
+    for i, c in enumerate(cases):
+        om, tm = xattr_modes(rnd, i)
+        if modes:
+            om, tm = list(dict.fromkeys(modes + ["sorted", "reverse"])), [m for m in modes if m != "none"][:2] or ["reverse"]
+        jobs.append((c, om, tm))
+    with ThreadPoolExecutor(max_workers=8) as ex:
+        results = list(ex.map(lambda j: check_xattr_case(ctx, tools, j[0], j[1], j[2]), jobs))
+    reported = set()
+    for r in results:
+        case = r["case"]
+        rep = dict(kind="xattr", case=dict(case.to_json(), xattrs=case.xattrs), xattr_sets=[[(k, v.hex()) for k, v in s] for s in XSETS],
+                   host_xattrs=r.get("xa_lines"))
+        if r["error"]:
+            ctx.violation("machinery-error:xattr-case", "xattr case %s could not be run: %s" % (case.cid, r["error"][-400:]),
+                          dict(rep, detail=r["error"]), no_input=True)
+            continue
+        stats["cases"] += 1
+        stats["objects_with_xattrs"] += r["nxa"]
+        stats["images"] += len(r["oracle"])
+        concrete = False
+        if len(r["groups"]) > 1:
+            concrete = True
+            stats["order_bad"] += 1
+            ma, mb = r["pair"]
+            by_numbers = split_mode(ma)[0] == split_mode(mb)[0]
+            sig = ("host-number-dependent-image:xattr" if by_numbers else "order-dependent-image:xattr")
+            if sig not in reported:
+                reported.add(sig)
+                show = lambda v: ("sha256 " + v[1][:16]) if v[1] else "exit %d" % v[0]
+                ctx.violation(sig, "gensquashfs %s writes different images for the same directory (%d objects with user.* xattrs) under "
+                              "different readdir orders / host numbers: %s -> %s, %s -> %s; %s" % (
+                                  " ".join(case.opts), r["nxa"], ma, show(r["oracle"][ma]), mb, show(r["oracle"][mb]), r["diff"]),
+                              dict(rep, modes=[ma, mb], results={m: list(v) for m, v in r["oracle"].items()}))
+        for t in r["ties"]:
+            stats["tie_runs"] += 1
+            xi = t.get("ximage") or {}
+            if xi.get("exact") and t["ok"]:
+                stats["tie_exact"] += 1
+                stats["bytes"] += xi.get("bytes", 0)
+            if xi.get("sets"):
+                stats["with_section"] += 1
+                stats["sets"] += xi["sets"]
+            if t["ok"]:
+                continue
+            stats["tie_bad"] += 1
+            sig = "tie-xattr:%s" % t["kind"]
+            if concrete or sig in reported:
+                continue
+            reported.add(sig)
+            ctx.violation(sig, "correspondence ImgScan.apply_xattrs (walk over the sorted tree on C01's xattr writer model, xflush) vs the "
+                          "image gensquashfs -x (h_scan) wrote broken on case %s, readdir order %s: %s (images identical under %d "
+                          "readdir orders)" % (case.cid, t["mode"], t.get("detail"), len(r["oracle"])),
+                          dict(rep, modes=[t["mode"]],
+                               correspondence="props/C11 tie 1c: xattr index per path, key/value table, id table, inode table = model (exact)"),
+                          no_input=True)
+    return stats
 
 
 # --------------------------------------------------------------------------------------------
@@ -2192,7 +2536,8 @@ def run(ctx):
         "stat fields - directory st_size/st_nlink, st_blocks, st_blksize, st_atime, st_ctime, st_rdev of non-devices, d_type, st_mtime "
         "when times are not kept - by the values of a profile), props/C11/h_scan.c + h_dump.h "
         "(gensquashfs with a logging iterator wrapper and an fstree dump), props/C11/h_fstree.c, props/C11/driver.ml + stubs.c, "
-        "props/C11/driver_img.ml; vlib/sqfsimg.py (decodes the real image for tie 1b)",
+        "props/C11/driver_img.ml, props/C11/driver_x.ml; vlib/sqfsimg.py (decodes the real image for tie 1b / 1c); the host file "
+        "system's user.* xattrs (tie 1c: os.listxattr / os.getxattr of the generated tree -> model input, same system calls as the packer)",
         "python glue of props/C11/check.py: lstat of the generated tree -> model input; option/pack-file parsing of "
         "gensquashfs is not modelled (the iterator configuration is taken from what the harness logged)",
         "libc fnmatch is an oracle of the model (Section variable, no contract), bound to the same libc function in the driver",
@@ -2203,7 +2548,10 @@ def run(ctx):
         "I/O errors and allocation failures are not modelled; link counts / inode counts are unbounded in the model",
         "image = function of (fstree after post_process, file contents, options): Properties_C11 (session 3) composes the layer "
         "models (ImgPost.to_img, Img.serialize_fstree, C02.run, Image.write_image) and proves the tables and the image bytes equal "
-        "for every two enumeration orders; host file contents, xattrs and compressor options are parameters shared by both runs; "
+        "for every two enumeration orders; host file contents and compressor options are parameters shared by both runs; with -x the "
+        "xattr index per node and the xattr section are computed by ImgScan.apply_xattrs (walk over the sorted tree) from the host's "
+        "xattr lists - per file name, in llistxattr order: part of the host state, a function of the file and not of the readdir "
+        "order, the same in both runs (scan_image_order_free_with_xattrs); selinux labelling and the xattr map file are not modelled; "
         "the tie compares the metadata tables (1b), the data area and the super block are covered by the sha256 search oracle",
     ]
     stats = dict(tie_runs=0, tie_bad=0, oracle_bad=0, entries=0, failed_runs=0, reported=set(), sens={})
@@ -2218,6 +2566,12 @@ def run(ctx):
                 orders = [j["ops"], j["ops"]]
             cstats = run_component(ctx, tools, 0, cases=[dict(i=0, wild=False, dflt=j["dflt"], orders=orders)])
             ctx.log("component replay: %s" % cstats)
+            cases = []
+        elif j.get("kind") == "xattr":
+            c = Case.from_json(j["case"])
+            c.xattrs = j["case"].get("xattrs") or {}
+            xstats = run_xattr_leg(ctx, tools, cases=[c], modes=j.get("modes"))
+            ctx.log("xattr replay: %s" % xstats)
             cases = []
         else:
             cases = [Case.from_json(j["case"])]
@@ -2300,6 +2654,22 @@ def run(ctx):
 
     cstats = run_component(ctx, tools, 5000 if ctx.tier == "quick" else 100000)
     ctx.log("component level: %s" % cstats)
+
+    t_x = time.time()
+    xstats = run_xattr_leg(ctx, tools)
+    ctx.log("xattr level (tie 1c, -x / --keep-xattr): %s; took %.1fs" % (
+        ("SKIPPED: " + xstats["skipped"]) if xstats["skipped"] else (
+        "%d trees with real user.* xattrs (%d objects carrying them: files, directories, the root, names of multiply-linked "
+        "files; sets shared between objects, sets with common pairs, the same pairs created in another order), %d images of the "
+        "real gensquashfs -x hashed under readdir orders x host number assignments (%d trees with differing images), %d tie "
+        "runs (%d broken): xattr index of every path, key/value table and id table = ImgScan.apply_xattrs + xflush of the "
+        "model fed with the host's llistxattr order (%d images with a section, %d sets), %d of them with single-block tables "
+        "compared with the inode table byte for byte (%d bytes)"
+        % (xstats["cases"], xstats["objects_with_xattrs"], xstats["images"], xstats["order_bad"], xstats["tie_runs"], xstats["tie_bad"],
+           xstats["with_section"], xstats["sets"], xstats["tie_exact"], xstats["bytes"])), time.time() - t_x))
+    ctx.coverage["xattr_leg"] = xstats
+    if xstats["tie_bad"] or xstats["order_bad"]:
+        ctx.tie_broken.append("tie 1c (xattr)")
 
     n_oracle = sum(len(j[2]) for j in jobs)
     ctx.coverage["evaluations"] = stats["tie_runs"] + cstats["cases"] + n_oracle + stats.get("variants_run", 0)
